@@ -153,10 +153,12 @@ pub fn exec(op: &str, a: &[u64]) -> Result<Outcome, String> {
             let qt = r.text()?;
             let es: Vec<(Vec<Vec<u64>>, usize)> = r.list(|r| Ok((r.text()?, r.usize()?)))?;
             let obs = r.opt(|r| r.usize())?;
+            // the query as the caller spells it (the code normalises it; the model gets the normalised form)
+            let q_raw = r.string()?;
             r.end()?;
             let q = text_to_string(&qt)?;
-            if clusters(&normalize(&q, Normalization::NFKC, true), true) != qt {
-                return Err("query in request is not NFKC-normalised / segmented as the code does".into());
+            if clusters(&normalize(&q_raw, Normalization::NFKC, true), true) != qt {
+                return Err("query in request is not the NFKC form of the raw query, segmented as the code does".into());
             }
             let keys: Vec<String> = es.iter().map(|e| text_to_string(&e.0)).collect::<Result<_, _>>()?;
             for (k, e) in keys.iter().zip(&es) {
@@ -174,7 +176,7 @@ pub fn exec(op: &str, a: &[u64]) -> Result<Outcome, String> {
             }
             let d = Dictionary::load(&p).map_err(|e| e.to_string())?;
             let m = if norm { DictionaryDistanceMeasure::NormalizedEditDistance } else { DictionaryDistanceMeasure::EditDistance };
-            let res = d.get_closest(&q, m);
+            let res = d.get_closest(&q_raw, m);
             let got_idx = res.as_ref().and_then(|(t, _, _)| keys.iter().position(|k| k == t));
             // among entries with equal distance and equal frequency the choice depends on the hash order of this
             // Dictionary instance: the request's observation (from the generating run) is judged by the model,
@@ -184,6 +186,8 @@ pub fn exec(op: &str, a: &[u64]) -> Result<Outcome, String> {
                 Some((_, f, _)) => ok([*f as u64]),
                 None => "ok none".to_string(),
             });
+            o.check(res.is_none() || got_idx.is_some(), "get_closest returned a term that is not an entry of the dictionary");
+            o.check(res.is_some() || keys.is_empty(), "get_closest found nothing in a dictionary that has entries");
             if let Some((t, f, _)) = &res {
                 let dist = |k: &str| distance(&q, k, true, false, false, norm);
                 let dmin = keys.iter().map(|k| dist(k)).fold(f64::INFINITY, f64::min);
@@ -412,7 +416,19 @@ pub fn run_c20(ctx: &mut Ctx) {
             }
         }
         let freqs: Vec<usize> = keys.iter().map(|_| ctx.rng.random_range(1..=3)).collect();
-        let q = normalize(WORDS[ctx.rng.random_range(0..WORDS.len())], Normalization::NFKC, true);
+        // the query as a caller spells it: a word, or a compatibility spelling of one of the keys (full-width letters,
+        // the fi / fl ligatures, a decomposed accent) that NFKC maps onto the key
+        let q_raw: String = if !keys.is_empty() && ctx.rng.random_range(0..3) == 0 {
+            let k = keys[ctx.rng.random_range(0..keys.len())].clone();
+            match ctx.rng.random_range(0..3) {
+                0 => k.chars().map(|c| if c.is_ascii_alphanumeric() { char::from_u32(c as u32 - 0x21 + 0xFF01).unwrap() } else { c }).collect(),
+                1 => k.replace("fi", "\u{fb01}").replace("fl", "\u{fb02}").replace('\u{e4}', "a\u{308}"),
+                _ => k.chars().enumerate().map(|(i, c)| if i == 0 && c.is_ascii_alphanumeric() { char::from_u32(c as u32 - 0x21 + 0xFF01).unwrap() } else { c }).collect(),
+            }
+        } else {
+            WORDS[ctx.rng.random_range(0..WORDS.len())].to_string()
+        };
+        let q = normalize(&q_raw, Normalization::NFKC, true);
         let norm = ctx.rng.random_bool(0.5);
         let p = format!("{}/closest-gen.tsv", tmp());
         {
@@ -423,7 +439,7 @@ pub fn run_c20(ctx: &mut Ctx) {
         }
         let d = Dictionary::load(&p).unwrap();
         let m = if norm { DictionaryDistanceMeasure::NormalizedEditDistance } else { DictionaryDistanceMeasure::EditDistance };
-        let res = d.get_closest(&q, m);
+        let res = d.get_closest(&q_raw, m);
         let obs = res.and_then(|(t, _, _)| keys.iter().position(|k| *k == t));
         let mut v = vec![norm as u64];
         v.extend(enc_text(&q, true));
@@ -436,6 +452,7 @@ pub fn run_c20(ctx: &mut Ctx) {
             Some(i) => v.extend([1, i as u64]),
             None => v.push(0),
         }
+        enc_str(&mut v, &q_raw);
         ctx.case("closest", &v);
         // dictionary files: load, and the save of what was loaded
         let file = rand_dict_file(ctx);
